@@ -29,6 +29,9 @@ checks = {
  "C13": ("model_checking", "deviation-bounded DFS (bound 2 quick / 3 thorough) over a choice tree of tamperings and header-syntax variants applied to requests built with the real client API, delivered to the real VerifyHTTPRequest + KeyRing under a virtual clock, against a reference header grammar and exact reference signatures",
          "Every combination of at most two (three) deviations from the transmitted request is executed on the real code; the oracle recomputes the signing object and the deterministic ed25519 signature independently.",
          "ed25519 trusted; net/http's own request construction limits which URIs are transmissible", "4/C13"),
+ "C12": ("fault_enumeration", "deviation-bounded DFS (bound 3 quick / 4 thorough) over batches x database states x two fetchers' behaviours x boundary timestamps x validity rule x database faults on the real KeyRing.VerifyJSONs under a virtual clock, against a reference key-acquisition model with call-trace clauses; full products for CheckKeys and for Direct/Perspective fetchers over a scripted key client",
+         "Every scenario within the deviation bound is executed on the real code; verdicts must lie between the reference model's 'must' and 'may' sets and the recorded calls to database and fetchers must satisfy the property's acquisition clauses.",
+         "ed25519 trusted; unsolicited keys from fetchers are a documented don't-care", "4/C12"),
 }
 pending = {}
 props = [json.loads(l) for l in open('/verif/properties.jsonl')]
